@@ -164,6 +164,14 @@ func (c *e6dCtx) condFacts(cond ast.Expr, pol bool, f bfact) {
 			}
 			return
 		}
+		// relational fact: i < len(P)  (loop conditions)
+		if (op == token.LSS && pol) || (op == token.GEQ && !pol) {
+			if ip, ok := c.pathOf(x.X); ok {
+				if lp, ok := c.lenOf(x.Y); ok {
+					f["lt:"+ip+"|"+lp] = 1
+				}
+			}
+		}
 		l, r := x.X, x.Y
 		// mirrored form K op len(P)
 		if _, ok := c.lenOf(l); !ok {
@@ -224,6 +232,13 @@ func (c *e6dCtx) kill(f bfact, path string) {
 	for k := range f {
 		if k == path || strings.HasPrefix(k, path+".") {
 			delete(f, k)
+			continue
+		}
+		if strings.HasPrefix(k, "lt:") {
+			parts := strings.SplitN(strings.TrimPrefix(k, "lt:"), "|", 2)
+			if len(parts) == 2 && (parts[0] == path || parts[1] == path || strings.HasPrefix(parts[1], path+".")) {
+				delete(f, k)
+			}
 		}
 	}
 }
@@ -354,6 +369,10 @@ func (c *e6dCtx) scanUses(n ast.Node, f bfact) {
 					}
 				}
 			}
+			if ip, ok := c.pathOf(e.Index); ok && f["lt:"+ip+"|"+path] == 1 {
+				c.uses = append(c.uses, BoundUse{Fn: c.fn, Pos: e.Pos(), Path: path, Need: 1, Have: 1, Expr: types.ExprString(e)})
+				return true
+			}
 			c.undecided(e.Pos(), path, e, "non-constant index")
 		case *ast.SliceExpr:
 			if !isByteSlice(c.info.TypeOf(e.X)) {
@@ -482,6 +501,9 @@ func (c *e6dCtx) transfer(n ast.Node, f bfact, record bool) {
 			}
 		}
 	case *ast.IncDecStmt:
+		if path, ok := c.pathOf(s.X); ok {
+			c.kill(f, path)
+		}
 	case *ast.RangeStmt:
 		for _, l := range []ast.Expr{s.Key, s.Value} {
 			if l != nil {
